@@ -445,7 +445,7 @@ class NAHooks(Hooks):
                     f = as_dt(frm)
                 return bool(_np.can_cast(f.d, as_dt(to).d, casting))
             return cc
-        if name == 'issubdtype':
+        if name in ('issubdtype', 'issubsctype'):
             def isd(d, t):
                 if isinstance(t, Opaque) and t.desc.startswith('np.'):
                     t = getattr(_np, t.desc[3:])
